@@ -4,6 +4,11 @@ import json, os
 V = os.path.dirname(os.path.dirname(os.path.abspath(__file__)))
 props = [json.loads(l) for l in open(os.path.join(V, 'properties.jsonl'))]
 CHECKS = {
+ 'C08': dict(
+   text="Coq proofs: the offset arithmetic of struct_decl (align_to / straddling test / align_down, as modelled) places every member of every struct - any member list with bit-fields of any unit size and width, zero-width and unnamed bit-fields, _Alignas, aligned(n), packed - at the least position the declaratively stated psABI conditions allow, gives the struct the least-upper-bound alignment and the least size, members never overlap, a bit-field lies inside an aligned unit of its type; the switch of declspec(), regenerated from parse.c on every run, accepts every C11 6.7.2p2 specifier multiset in every order, interleaved with any other declaration specifiers, with the C11 type (verified permutation enumeration + vm_compute sweep). Tie: translator for declspec; generated aggregates (nesting, arrays, anonymous members, 8 bit-field base types, attributes) compared member by member (offsets, bit images) with the extracted model and with gcc; all specifier permutations compiled and probed.",
+   note="Trusted: Coq kernel, no axioms; tools/gen_declspec.py; extraction + modelrun; gcc 12 as the other compiler. Excluded by the decidable predicate no_bad, with a proved witness that the exclusion is real: a bit-field crossing a unit boundary inside a packed struct (known finding), and packed unions (known finding). Declarator composition, typedef/typeof/enum, scalar sizes and __SIZEOF_*__ are covered by generated programs only; explicit alignment requests inside packed aggregates are not generated.",
+   technique="Coq proofs (least-position characterisation of the layout arithmetic; finite sweep over a regenerated table lifted by a verified permutation enumerator) + translator + differential layout probing vs extracted model and gcc",
+   design="5.C08"),
  'C11': dict(
    text="Coq proofs, for all inputs: encode_utf8 followed by decode_utf8 is the identity on every code point below 2^21 and the encoder equals the RFC 3629 table; the decoder rejects lone/missing continuation bytes; UTF-16 units are one unit (BMP) or a surrogate pair in the right ranges that decodes back; the identifier tables regenerated from unicode.c denote exactly Annex D.1/D.2 for every 32-bit value (breakpoint theorem + vm_compute sweep over the regenerated table); the shift ladder of convert_pp_int equals C11 6.4.4.1p5 first-fit for every base class, suffix class and value < 2^64. Tie: translator for the tables; unicode.c linked unmodified and compared with the extracted model on every code point < 2^21 and every identifier class < 0x110400 (exhaustive); generated programs for all bases x 23 suffix spellings x thresholds (types from the proved spec), string/char literals, concatenation, UCNs, BOM/CRLF/splices (gcc as reference).",
    note="Trusted: Coq kernel, no axioms; tools/gen_unicode.py; extraction + modelrun; harness/unicode_h.c; gcc 12 as reference for escapes/concatenation/UCN spelling. Modelled: suffix spelling parser, escape reader, strtoul are not proved (covered by generated programs only); floating literals are C02's.",
